@@ -492,6 +492,24 @@ def formatUtc (dt : DateTime) (fmt : Fmt) (short : Bool) (cap : Nat) : Except Er
   | none => .error .invalidArgument
   | some t => if t.length + 1 > cap ∨ t.length = 0 then .error .shortBuffer else .ok t
 
+/-- an `aws_byte_buf` as the formatters see it: the `len` bytes already present and the capacity
+(`len ≤ capacity` is the byte-buffer invariant; `capacity - len` is then the remaining space) -/
+structure Buf where
+  data : List Nat := []
+  cap : Nat := 0
+deriving Repr, DecidableEq, Inhabited
+
+/-- `s_date_to_str` behind `aws_date_time_to_utc_time_str` / `…_short_str`: `strftime` writes at
+`buffer + len` into the remaining `capacity - len` bytes (text and a NUL must fit); on success
+`len += bytes_written` — the text is *appended*; on refusal (`AWS_ERROR_SHORT_BUFFER`, or
+`AWS_ERROR_INVALID_ARGUMENT` for a format without a case) `len` and the bytes before it are untouched -/
+def formatInto (dt : DateTime) (fmt : Fmt) (short : Bool) (b : Buf) : Except Err Buf :=
+  match formatTextGen dt.gmt fmt short with
+  | none => .error .invalidArgument
+  | some t =>
+    if t.length + 1 > b.cap - b.data.length ∨ t.length = 0 then .error .shortBuffer
+    else .ok { b with data := b.data ++ t }
+
 /-! ### epoch views -/
 
 abbrev u64 : Nat := 18446744073709551616
